@@ -1098,3 +1098,241 @@ def check_rsubset(ctx, prog):
             any(contains(x, lambda y: _is_call(y, "OccupiedEntry::get")) for x in alts)
         ctx.ob("R-SUBSET", "dfa_state_of_nfa_states returns the registered state or the new one", ok,
                key="R-SUBSET:helper:result", where=h["span"], detail=show(ret))
+
+
+# --------------------------------------------------------------------------- subset construction provenance
+def subterms(t, pred, out):
+    if pred(t):
+        out.append(t)
+    if isinstance(t, (tuple, frozenset)):
+        for x in t:
+            subterms(x, pred, out)
+    return out
+
+
+def is_default(t):
+    return isinstance(t, tuple) and len(t) == 4 and t[0] == "call" and t[1].endswith("Default>::default")
+
+
+def item_of(t):
+    """(collection term, path) if t is `next(into_iter*(coll)) as Some .0 <path>`"""
+    if t[0] != "path":
+        return None
+    base, path = t[1], t[2]
+    if not (_is_call(base, "Iterator>::next") and path[:2] == (("as", "Some"), ("f", 0))):
+        return None
+    c = base[3][0]
+    while isinstance(c, tuple) and len(c) == 4 and c[0] == "call" and _re.search(
+            r"(into_iter|::iter|::copied|Deref>::deref)$", c[1]):
+        c = c[3][0]
+    return c, path[2:]
+
+
+NAV = _re.compile(r"(Iterator>::next|IntoIterator>::into_iter|HashMap::entry|Entry::or_default|::iter|"
+                 r"RangeMap::len|RangeMap::into_iter|RangeMap::iter|Vec::with_capacity|::len)$")
+
+
+def check_rprov(ctx, prog):
+    lex = prog.crate(LEX)
+    b = lex.body("nfa_to_dfa::nfa_to_dfa")
+    if not ctx.ob("R-PROV", "nfa_to_dfa found", b is not None, key="R-PROV:anchor"):
+        return
+    sym = Sym(b, {1: "nfa"})
+    blocks = sym.blocks
+    loops, dom, preds = cfg.natural_loops(blocks)
+    locals_ = b["mir"]["locals"]
+    where = b["span"]
+    calls = []
+    for bi, bb in enumerate(blocks):
+        if bb["cleanup"]:
+            continue
+        t = bb["term"]
+        if t["k"] == "call":
+            c = norm_path(t.get("resp") or t["f"].get("path")) or "?"
+            a0mut = False
+            if t["args"]:
+                q = t["args"][0].get("move") or t["args"][0].get("copy")
+                if q is not None and not q["p"]:
+                    ty = locals_[q["l"]]
+                    ty = ty.get("ty") if isinstance(ty, dict) else ty
+                    a0mut = str(ty).startswith("&mut")
+            calls.append((bi, c, tuple(sym.operand(a) for a in t["args"]), a0mut))
+
+    def member(t):
+        """a member of the popped set"""
+        it = item_of(t) if t[0] == "path" else None
+        if it is None:
+            # `next(..) as Some .0` without further path
+            if t[0] == "path" and _is_call(t[1], "Iterator>::next"):
+                it = item_of(("path", t[1], t[2]))
+        return contains(t, lambda x: _is_call(x, "Vec::pop"))
+
+    # collectors from the transition sites
+    coll = {}
+    for meth, kind in (("set_any_transition", "any"), ("set_end_of_input_transition", "eoi"),
+                       ("add_char_transition", "char")):
+        sites = [x for x in calls if x[1].endswith("DFA::" + meth)]
+        if len(sites) != 1:
+            ctx.ob("R-PROV", "one %s site" % kind, False, key="R-PROV:%s:site" % kind, where=where)
+            return
+        tgt = sites[0][2][-1]
+        ks = tgt[3][2] if _is_call(tgt, "dfa_state_of_nfa_states") else None
+        C = ks[3][0] if ks is not None and _is_call(ks, "clone") else ks
+        X = closure_of(C) if C is not None else None
+        if X is None:
+            ctx.ob("R-PROV", "%s target is a closure" % kind, False, key="R-PROV:%s:closure" % kind, where=where)
+            return
+        coll[kind] = X
+    ok = is_default(coll["any"]) and is_default(coll["eoi"]) and coll["any"] != coll["eoi"]
+    ctx.ob("R-PROV", "the `_` and end-of-input target sets are two separate fresh sets", ok, key="R-PROV:sets",
+           where=where, detail=[show(coll["any"]), show(coll["eoi"])])
+    D_any, D_eoi = coll["any"], coll["eoi"]
+    ci = item_of(coll["char"])
+    ok = ci is not None and is_default(ci[0]) and ci[1] == (("f", 1),)
+    ctx.ob("R-PROV", "character targets are the values of a fresh map iterated entry by entry", ok,
+           key="R-PROV:charmap", where=where, detail=show(coll["char"]))
+    if not ok:
+        return
+    D_char = ci[0]
+    CHAR_ITEM = ("path", coll["char"][1], coll["char"][2][:-1])
+    # range map: from the Range aggregate pushed
+    D_range = None
+    X_range = None
+    for bi, c, a, m in calls:
+        if c == "std::vec::Vec::push" and a[1][0] == "agg" and "range_map::Range" in a[1][1]:
+            v = a[1][2][2]
+            ks = v[3][2] if _is_call(v, "dfa_state_of_nfa_states") else None
+            C = ks[3][0] if ks is not None and _is_call(ks, "clone") else ks
+            X_range = closure_of(C) if C is not None else None
+    ri = item_of(X_range) if X_range is not None else None
+    ok = ri is not None and is_default(ri[0]) and ri[1] == (("f", 2),)
+    ctx.ob("R-PROV", "range targets are the values of a fresh range map iterated piece by piece", ok,
+           key="R-PROV:rangemap", where=where, detail=show(X_range) if X_range else None)
+    if not ok:
+        return
+    D_range = ri[0]
+    names = {D_any: "`_` targets", D_eoi: "end-of-input targets", D_char: "character targets",
+             D_range: "range targets"}
+
+    def nfa_item(t, accessor):
+        """path below an item of NFA::<accessor>(nfa, member of popped set)"""
+        it = item_of(t)
+        if it is None:
+            return None
+        c, path = it
+        if _is_call(c, "NFA::" + accessor) and c[3][0] == ("param", "nfa") and \
+                contains(c[3][1], lambda x: _is_call(x, "Vec::pop")):
+            return c, path
+        return None
+
+    ACCESSORS = ("char_transitions", "range_transitions", "any_transitions", "end_of_input_transitions",
+                 "get_accepting_state", "initial_state")
+
+    def sources(args):
+        """(NFA accessors, collectors) the inserted values derive from"""
+        acc = set()
+        cols = set()
+        for t in args:
+            for x in subterms(t, lambda y: isinstance(y, tuple) and len(y) == 4 and y[0] == "call"
+                              and y[1].startswith("nfa::NFA::") and y[1].rsplit("::", 1)[-1] in ACCESSORS, []):
+                acc.add(x[1].rsplit("::", 1)[-1])
+            for d in names:
+                if contains(t, lambda y, d=d: y == d):
+                    cols.add(d)
+            if contains(t, lambda y: _is_call(y, "Vec::pop")) and not acc:
+                acc.add("<the popped set itself>")
+        return acc, cols
+
+    def within(t, d):
+        if t == d:
+            return True
+        if _is_call(t, "Entry::or_default") and _is_call(t[3][0], "HashMap::entry") and t[3][0][3][0] == d:
+            return True
+        it = item_of(t) if t[0] == "path" else None
+        return it is not None and it[0] == d
+
+    n_mut = 0
+    for bi, c, a, a0mut in calls:
+        if not a or not a0mut:
+            continue
+        roots = [d for d in names if within(a[0], d)]
+        if not roots or NAV.search(c):
+            continue
+        root = roots[0]
+        what = names[root]
+        key = "R-PROV:%s" % what.split()[0].strip("`")
+        vals = [x for x in a[1:] if not (x[0] == "agg" and "closure" in x[1])]
+        acc, cols = sources(vals)
+        cols.discard(root) if a[0] != root else None
+        stage2 = a[0] != root and not _is_call(a[0], "Entry::or_default")
+        ok = False
+        rule = ""
+        if root == D_eoi:
+            rule = "only NFA::end_of_input_transitions of members of the popped set"
+            ok = acc == {"end_of_input_transitions"} and not cols
+        elif root == D_any:
+            rule = "only NFA::any_transitions of members of the popped set"
+            ok = acc == {"any_transitions"} and not cols
+        elif root == D_char and not stage2:
+            rule = "only the targets of NFA character transitions, filed under that transition's character"
+            ent = a[0][3][0] if _is_call(a[0], "Entry::or_default") else None
+            K = ent[3][1] if ent is not None else None
+            kk = nfa_item(K, "char_transitions") if K is not None else None
+            srcs = subterms(a[1], lambda x: isinstance(x, tuple) and x[:1] == ("path",) and
+                            nfa_item(x, "char_transitions") is not None, [])
+            same = kk is not None and kk[1] == (("f", 0),) and any(
+                nfa_item(s_, "char_transitions")[0] == kk[0] and nfa_item(s_, "char_transitions")[1] == (("f", 1),)
+                for s_ in srcs)
+            ok = acc == {"char_transitions"} and not cols and same
+        elif root == D_char:
+            rule = "only targets of a collected range that contains the character, or `_` targets"
+            ok = not acc and cols and cols <= {D_range, D_any}
+            if ok and D_range in cols:
+                rs = subterms(a[1], lambda x: isinstance(x, tuple) and x[:1] == ("path",) and
+                              item_of(x) is not None and item_of(x)[0] == D_range and item_of(x)[1] == (("f", 2),), [])
+                guarded = False
+                for r_ in rs:
+                    R = ("path", r_[1], r_[2][:-1])
+                    guards = [gb for gb, gc, ga, gm in calls if gc.endswith("Range::contains") and ga[0] == R
+                              and ga[1] == ("path", CHAR_ITEM[1], CHAR_ITEM[2] + (("f", 0),))]
+                    guarded = guarded or any(true_edge_dominates(blocks, dom, g, bi) for g in guards)
+                if not guarded:
+                    ok = False
+                    rule += " (the range must be tested with contains(char) first)"
+        elif root == D_range and not stage2:
+            rule = "only NFA range transitions, inserted as (start, end, targets) with a merge that keeps both sides"
+            ok = acc == {"range_transitions"} and not cols
+            if ok and c.endswith("RangeMap::insert"):
+                its = [nfa_item(x, "range_transitions") for x in a[1:3]]
+                v = a[3][3][0] if _is_call(a[3], "clone") else a[3]
+                iv = nfa_item(v, "range_transitions")
+                ok = all(x is not None for x in its) and iv is not None and its[0][0] == its[1][0] == iv[0] and \
+                    (its[0][1], its[1][1], iv[1]) == ((("f", 0),), (("f", 1),), (("f", 2),))
+                cb = None
+                targ = blocks[bi]["term"]["args"][4]
+                q = targ.get("move") or targ.get("copy")
+                if q is not None:
+                    for kind_, d_, _b in sym.defs.get(q["l"], []):
+                        if kind_ == "st" and d_["k"] == "agg" and d_["kind"].get("agg") == "closure":
+                            cb = lex.body(norm_path(d_["kind"]["def"]))
+                okm = False
+                if cb is not None:
+                    cs = Sym(cb, {1: "env", 2: "a", 3: "b"})
+                    ext = [x for x in _calls(cs) if x[1].endswith("Extend>::extend")]
+                    okm = len(ext) == 1 and ext[0][2][0] == ("param", "a") and \
+                        contains(ext[0][2][1], lambda x: x == ("param", "b"))
+                ctx.ob("R-PROV", "range targets: where two NFA ranges overlap the merged piece gets the targets "
+                       "of both (the merge function extends the first set with the second)", okm,
+                       key=key + ":merge", where=where)
+        elif root == D_range:
+            rule = "only `_` targets in addition to a range's own targets"
+            ok = not acc and cols == {D_any}
+        n_mut += 1
+        ctx.ob("R-PROV", "%s receive %s" % (what, rule), ok,
+               key=key + ":source:%s:%s" % ("piece" if stage2 else "collect", c.rsplit("::", 1)[-1]),
+               where=blocks[bi].get("span"),
+               detail={"call": c, "target": show(a[0])[:200], "NFA accessors feeding the inserted value": sorted(acc),
+                       "collected sets feeding it": sorted(names[x] for x in cols)})
+    ctx.floor("places where the subset construction adds states to a target set", n_mut, 7)
+
+
